@@ -225,6 +225,55 @@ func c02Processes(c *caseCtx) {
 	c.sample(M{"corpus": N, "processes": P, "accepted": acc, "example": corpus[0].M})
 }
 
+// sums over maps: float addition is not associative, so a total accumulated by ranging over a map (weights, electre
+// criteria, capacities) differs in the last bit from one call to the next. It shows only when a comparison sits exactly on
+// the boundary: "human" decimal weights in 0.05 steps, integer performances, crisp integer thresholds.
+func c02MapOrder(c *caseCtx) {
+	r := c.rng
+	method := []string{"electreIII", "electreIII", "majorityHeuristic", "electreIII", "aspectEliminationHeuristic", "weightedSum", "electreIII", "owa"}[c.idx%8]
+	g := genRequest(r, genOpts{method: method, profile: profTies, minCrit: 3, maxCrit: 6, minAlt: 4, maxAlt: 7, nBiases: (c.idx / 8) % 2, allCons: 1, vetoHeavy: c.idx%3 == 0})
+	mp := g.M["methodParameters"].(M)
+	step := func() float64 { return float64(1+r.Intn(12)) * 0.05 }
+	if ec, ok := mp["electreCriteria"].(M); ok {
+		for _, e := range ec {
+			e.(M)["k"] = step()
+		}
+		if c.idx%4 != 0 {
+			delete(mp, "electreDistillation") // the default function: cut levels like 0.85 against concordances like 0.85
+		}
+	}
+	if w, ok := mp["weights"].(M); ok {
+		for k := range w {
+			w[k] = step()
+		}
+	}
+	body := g.body()
+	R := 8
+	if c.tier == "thorough" {
+		R = 16
+	}
+	first := decide(body, false)
+	c.count("evaluations", 1)
+	for rep := 1; rep < R; rep++ {
+		d := decide(body, rep%4 == 3)
+		c.count("evaluations", 1)
+		if d.OK != first.OK {
+			c.violate("verdict-not-repeatable", fmt.Sprintf("repetition %d: accepted=%v, first run accepted=%v (%s / %s)", rep, d.OK, first.OK, d.Err, first.Err), M{"request": g.M})
+			return
+		}
+		if d.OK && !bytes.Equal(d.JSON, first.JSON) {
+			c.violate("bytes-not-repeatable", fmt.Sprintf("repetition %d of the same request (decimal weights) in the same process gives different bytes", rep),
+				M{"request": g.M, "first": string(first.JSON), "again": string(d.JSON)})
+			return
+		}
+	}
+	if first.OK {
+		c.count("decimal_weight_requests_repeated", 1)
+		c.count("nontrivial", 1)
+		c.distinct(string(body))
+	}
+}
+
 // large problems: implementations may switch strategy (batching, worker goroutines) above a size threshold
 func c02Large(c *caseCtx) {
 	method := []string{"weightedSum", "owa", "majorityHeuristic", "satisfactionHeuristic", "aspectEliminationHeuristic", "electreIII"}[c.idx%6]
@@ -264,6 +313,8 @@ func init() {
 			"rejected requests are compared on the verdict only (lists of available names are printed in map order)"},
 		streams: []*stream{
 			{name: "inProcess", n: tierN(7000, 150000), unit: 1750, run: c02InProcess, floors: map[string]int64{"accepted_repeated": 5000, "rejected_repeated": 300}},
+			{name: "mapOrder", n: tierN(4000, 40000), unit: 1000, run: c02MapOrder, floors: map[string]int64{"decimal_weight_requests_repeated": 3000},
+				note: ">=3 criteria with weights / k in 0.05 steps, integer performances and thresholds, 8 (thorough 16) repetitions each: a total summed in map order differs in the last bit between calls and flips comparisons that sit exactly on a boundary"},
 			{name: "large", n: tierN(48, 600), unit: 4, run: c02Large, floors: map[string]int64{"large_repeated": 30},
 				note: "requests with 256..755 alternatives (ELECTRE 130..189) and 1..3 fired biases, 3 repetitions each"},
 			{name: "processes", n: tierN(3, 12), unit: 1, run: c02Processes, floors: map[string]int64{"processes_started": 9, "requests_compared_across_processes": 700}},
